@@ -25,6 +25,8 @@ type Solver struct {
 	timeout int // ms
 	dead    bool
 	log     io.Writer
+	sorts   map[string]string // declared constant -> sort
+	ufSig   string            // declared functions (part of the cache key)
 }
 
 var totalQueries int64
@@ -94,6 +96,8 @@ func (s *Solver) Close() {
 // Reset forgets all declarations (new task).
 func (s *Solver) Reset() {
 	s.decls = nil
+	s.sorts = map[string]string{}
+	s.ufSig = ""
 	if s.dead {
 		s.Close()
 		s.spawn()
@@ -107,6 +111,10 @@ func (s *Solver) Reset() {
 
 func (s *Solver) Declare(name string, sort Sort) {
 	d := fmt.Sprintf("(declare-const %s %s)\n", name, sort)
+	if s.sorts == nil {
+		s.sorts = map[string]string{}
+	}
+	s.sorts[name] = sort.String()
 	s.decls = append(s.decls, d)
 	s.send(d)
 }
@@ -117,6 +125,7 @@ func (s *Solver) DeclareFun(name string, args []Sort, res Sort) {
 		as = append(as, a.String())
 	}
 	d := fmt.Sprintf("(declare-fun %s (%s) %s)\n", name, strings.Join(as, " "), res)
+	s.ufSig += d
 	s.decls = append(s.decls, d)
 	s.send(d)
 }
